@@ -37,7 +37,8 @@ inductive Del where
 deriving DecidableEq, Repr
 
 /-- how a walk ended: `abort` = an `error` was returned (exit status 1), `panic` = run-time panic
-(integer divide by zero / negative shift: exit status 2), `fuel` = the model ran out of depth. -/
+(integer divide by zero / negative shift: exit status 2; unreachable since the level guard
+`t.L > 6`, see `atOrRightOfEdge_ne_none`), `fuel` = the model ran out of depth. -/
 inductive Status where
   | ok | abort | panic | fuel
 deriving DecidableEq, Repr
@@ -82,6 +83,7 @@ inductive Expr where
   | max (a b : Expr)
   | div (a b : Expr)
   | ge (a b : Expr)                -- 1 / 0
+  | gt (a b : Expr)                -- 1 / 0
 deriving Repr
 
 /-- `int64(1) << s` and friends: Go panics on a negative count, yields 0 for counts ≥ 64 -/
@@ -103,6 +105,7 @@ def Expr.eval (env : String → Int) : Expr → Option Int
   | .max a b => do some (Max.max (← a.eval env) (← b.eval env))
   | .div a b => do goDiv (← a.eval env) (← b.eval env)
   | .ge a b => do some (if (← a.eval env) ≥ (← b.eval env) then 1 else 0)
+  | .gt a b => do some (if (← a.eval env) > (← b.eval env) then 1 else 0)
 
 /-- Go source text with all white space removed (the extractor strips it too, so gofmt's
 precedence-dependent spacing does not matter) -/
@@ -116,6 +119,11 @@ def Expr.render : Expr → String
   | .max a b => "max(" ++ a.render ++ "," ++ b.render ++ ")"
   | .div a b => a.render ++ "/" ++ b.render
   | .ge a b => a.render ++ ">=" ++ b.render
+  | .gt a b => a.render ++ ">" ++ b.render
+
+/-- `if t.L > 6 { continue }`: a tile above level 6 spans ≥ 2^64 leaves, it is always at the right edge
+(and the shift below would overflow) -/
+def levelGuardExpr : Expr := .gt (.var "t.L") (.lit 6)
 
 /-- `tileSize := int64(1) << (sunlight.TileHeight * (max(0, t.L) + 1))` -/
 def tileSizeExpr : Expr :=
@@ -138,12 +146,17 @@ def env2 (n size ts : Int) : String → Int
 /-- the right-edge guard: `some true` = "at or right of the edge: keep (`continue`)",
 `some false` = strictly left of the edge, `none` = the process panics -/
 def atOrRightOfEdge (t : Tile) (size : Nat) : Option Bool :=
-  match tileSizeExpr.eval (env1 t.L) with
+  match levelGuardExpr.eval (env1 t.L) with
   | none => none
-  | some ts =>
-    match edgeGuardExpr.eval (env2 t.N (size : Int) ts) with
-    | none => none
-    | some v => some (v ≠ 0)
+  | some g =>
+    if g ≠ 0 then some true
+    else
+      match tileSizeExpr.eval (env1 t.L) with
+      | none => none
+      | some ts =>
+        match edgeGuardExpr.eval (env2 t.N (size : Int) ts) with
+        | none => none
+        | some v => some (v ≠ 0)
 
 /-! ### overrideImmutable -/
 
